@@ -31,6 +31,7 @@ def handle (st : DState) (j : Json) : DState × Json :=
   | .str "dmet_reorder" => (st, dmetReorderOp j)
   | .str "partition" => (st, partitionOp j)
   | .str "defaults_history" => (st, defaultsHistoryOp j)
+  | .str "ansatz_calls" => (st, ansatzCallsOp j)
   | .str "pad1" => (st, pad1Op j)
   | .str "spinsum1" => (st, spinSum1Op j)
   | .str "iqpe" => (st, iqpeOp j)
